@@ -92,7 +92,11 @@ fn fuse_dense_sized<S: Source, const NA: usize, const NB: usize>(s: &mut S) {
     let (a, b) = (&a[..la], &b[..lb]);
     s.assume(may_follow(a, b));
     if classify(a) == TokenClass::Number {
-        s.assume(a[la - 1] != b'.' && a[la - 1] != b'_');
+        // numbers as `write_number` spells them: never a trailing `.`, never an underscore
+        s.assume(a[la - 1] != b'.');
+        for c in a {
+            s.assume(*c != b'_');
+        }
     }
     let last_push = core::str::from_utf8(a).unwrap_or("");
     let character_rule = utils::should_break_with_space(a[la - 1] as char, b[0] as char);
